@@ -127,6 +127,28 @@ def _inplace_through_view(A, x):
     return buf * x
 
 
+def _ipow_through_view(A, x):
+    # **= on a view of a buffer writes through, like += -= *= /=
+    buf = A.zeros(3, dtype=x)
+    buf[...] = x
+    head = buf[0:2]
+    head **= 2
+    tail = buf[2:]
+    tail **= 3
+    return buf * 1.0 + x
+
+
+def _accumulator_0d(A, x):
+    # augmented assignment on entries of a buffer and on a 0-d accumulator (the result of sum)
+    buf = A.zeros(2, dtype=x)
+    for i in range(3):
+        buf[i % 2] += x[i] * x[i]
+    s = A.sum(buf)
+    s += 1.0
+    s *= x[0]
+    return x * s
+
+
 def _inplace_alias(A, x):
     z = x * 1.0
     w = z
@@ -204,6 +226,46 @@ def _inplace_on_element(A, x):
     return buf * x
 
 
+def _setitem_advanced(A, x):
+    # item assignment through advanced indices: computed values and constants
+    y = A.zeros(3, dtype=x)
+    y[[0, 2]] = x[:2] * x[1:]
+    y[np.array([False, True, False])] = x[0:1] * x[2:3]
+    z = x * x
+    z[np.array([True, False, True])] = 0.
+    z[[1]] = z[[1]] * x[[0]]
+    return y * y + z * x
+
+
+def _real_of_real_alias(A, x):
+    # numpy.real of real data is the array itself: a write through the result changes the operand
+    z = 1.0 * x
+    y = A.real(z)
+    y[0] = x[1] * x[2]
+    return z * z
+
+
+def _scratch_index_and_exponent(A, x):
+    # scratch arrays used as INDEX and as EXPONENT, changed in place between uses; a constant
+    # matrix refilled between two products
+    idx = np.array([0, 1])
+    y = x[idx]
+    idx += 1
+    y = y + x[idx]
+    il = [0, 2]
+    z = x[il]
+    il[0] = 1
+    z = z * x[il]
+    r = np.array([2., 3.])
+    y = y ** r
+    r[:] = 1.0
+    M = np.array([[2., 0.], [1., 1.]])
+    w = A.dot(M, y)
+    M[...] = np.array([[1., 3.], [0., 2.]])
+    w = A.dot(M, w)
+    return w * z
+
+
 def _paused(A, x):
     # recording is suspended with trace_off() and resumed with trace_on(): what ran while
     # recording was on is on the tape, what ran in between is not
@@ -276,8 +338,10 @@ def catalogue():
     add('x**int64(2)', lambda A, x: x ** np.int64(2), group='pow')
     add('x**int32(3)*c', lambda A, x: x ** np.int32(3) * A.c['c'], group='pow', consts={'c': (3,)})
     add('x**6', lambda A, x: x ** 6, group='pow')
-    add('x**2.0', lambda A, x: x ** 2.0, dom='nonzero', group='pow')
-    add('x**3.0', lambda A, x: x ** 3.0, dom='nonzero', group='pow')
+    add('x**2.0', lambda A, x: x ** 2.0, group='pow')
+    add('x**3.0', lambda A, x: x ** 3.0, group='pow')
+    add('sum((x-c)**2.)', lambda A, x: A.sum((x - A.c['c']) ** 2.), group='pow', consts={'c': (3,)})
+    add('x**array(2)', lambda A, x: x ** np.array(2), group='pow')
     add('x**-2.0', lambda A, x: x ** -2.0, dom='nonzero', group='pow')
     # ---- elementary / special ------------------------------------------------
     for name, dom in [('exp', 'any'), ('expm1', 'any'), ('log', 'pos'), ('log1p', 'gtm1'), ('sqrt', 'pos'),
@@ -324,12 +388,17 @@ def catalogue():
     add('buffer, y[...] = y[::-1]', _buf_self, group='buffer')
     add('augmented assignment through a view of a buffer', _inplace_through_view, group='buffer')
     add('augmented assignment through a second name', _inplace_alias, dom='nonzero', group='buffer')
+    add('**= through a view of a buffer', _ipow_through_view, group='buffer')
+    add('augmented assignment on a 0-d accumulator', _accumulator_0d, group='buffer')
     add('x*x.flat[3]', _flat_read, shape=(2, 2), group='index')
     add('scratch ndarray constant re-used during recording', _scratch_constant, group='buffer')
     add('scratch ndarray constants of dot re-used during recording', _scratch_constant_dot, group='buffer')
     add('buffer, same-rank right-hand sides broadcast along a size-1 axis', _buf_bcast_same_rank, shape=(2, 3), group='buffer', consts={'m': (2, 3)})
     add('buffer, slots reset to constants after use', _buf_reset_to_constant, group='buffer')
     add('augmented assignment on an element of a buffer', _inplace_on_element, group='buffer', tags=['utpmonly'])
+    add('buffer, item assignment through index lists and masks', _setitem_advanced, group='buffer')
+    add('write through real() of a real-valued node', _real_of_real_alias, group='buffer')
+    add('scratch index / exponent / matrix constants re-used during recording', _scratch_index_and_exponent, dom='pos', group='buffer')
     add('paused recording', _paused, group='buffer')
     add('paused recording twice', _paused_twice, group='buffer')
     add('prod(x)+sum(x*x)', lambda A, x: A.prod(x) + A.sum(x * x), group='reduce')
@@ -518,6 +587,10 @@ def catalogue():
     add('real(fft(x)*x)+imag(x*fft(x))', lambda A, x: A.real(A.fft.fft(x) * x) + A.imag(x * A.fft.fft(x)), shape=(4,), group='fft')
     add('real(fft(x)+x)', lambda A, x: A.real(A.fft.fft(x) + x) * x, shape=(4,), group='fft')
     # ---- compositions --------------------------------------------------------------
+    add('real(inv(x + 1j*c))', lambda A, x: A.real(A.inv(x + 1j * A.c['c'])) * A.c['w'], shape=(2, 2), group='comp', consts={'c': (2, 2), 'w': (2, 2)})
+    add('imag(inv(x + 1j*c))*x', lambda A, x: A.imag(A.inv(x + 1j * A.c['c'])) * x, shape=(2, 2), group='comp', consts={'c': (2, 2)})
+    add('real(solve(x + 1j*c, x.T))', lambda A, x: A.real(A.solve(x + 1j * A.c['c'], x.T)), shape=(2, 2), group='comp', consts={'c': (2, 2)})
+    add('imag(solve(x, x.T + 1j*c))', lambda A, x: A.imag(A.solve(x, x.T + 1j * A.c['c'])), shape=(2, 2), group='comp', consts={'c': (2, 2)})
     add('sum(x*exp(x)/(1+x0*x1)+sin(x)*x[::-1])', lambda A, x: A.sum(x * A.exp(x) / (1. + x[0] * x[1]) + A.sin(x) * x[::-1]), group='comp', dom='den01')
     add('exp(dot)', lambda A, x: A.exp(A.dot(x, x)) * x, group='comp')
     add('log(sum sq)', lambda A, x: A.log(A.sum(x * x) + 1.0), group='comp')
